@@ -109,6 +109,13 @@ def observe(args):
     from AegeanTools.models import ComponentSource
     comps = [s for s in rows if isinstance(s, ComponentSource) and np.isfinite(s.ra + s.dec + s.a + s.b + s.pa + s.peak_flux)]
     if comps:
+        if kind == "many" and len(comps) > 25:
+            # every sixth catalogue entry lies off the image: in every block of 20 groups some groups yield no
+            # component, the numbering of the later blocks must still not collide
+            import copy
+            comps = copy.deepcopy(comps)
+            for j in range(2, len(comps), 6):
+                comps[j].dec = max(-89.0, min(89.0, comps[j].dec + (3.0 if comps[j].dec < 0 else -3.0)))
         cat = base + "_in.csv"
         save_catalog(cat, comps)
         catf = cat.replace(".csv", "_comp.csv")
